@@ -10,18 +10,25 @@ Defs == ndJsonDeserialize(IOEnv.DEFS)
 Rec == ndJsonDeserialize(IOEnv.TRACE)
 VARIABLE l
 
-StepVerdict(def, s) ==
+\* KF-C11-1 (recorded): Command::build() expands the generated `help` subcommand into a mirror of the command tree; on a
+\* definition built explicitly, `help help <sub> ..` walks into that mirror (DisplayHelp) where a fresh one rejects <sub>
+ExplicitBuildBefore(r, i) == \E j \in 1..(i - 1) : r.steps[j].k = "build"
+HelpHelpWalk(argv) == \E k \in 1..Len(argv) : k + 2 <= Len(argv) /\ argv[k] = HELP /\ argv[k + 1] = HELP
+StepVerdict(def, r, i) ==
+  LET s == r.steps[i] IN
   IF s.obs.outcome = "Panic" THEN "C11-panic"
-  ELSE IF ~s.same_fresh THEN "C11-reused-differs-from-fresh"
+  ELSE IF ~s.same_fresh THEN (IF s.k = "parse" /\ ExplicitBuildBefore(r, i) /\ HelpHelpWalk(s.argv) /\ s.same_clone
+                              THEN "C11-reused-differs-from-fresh#KF-C11-1" ELSE "C11-reused-differs-from-fresh")
   ELSE IF ~s.same_clone THEN "C11-clone-differs"
   ELSE IF ~s.text_fresh \/ ~s.text_clone THEN "C11-message-differs"
   ELSE IF s.k = "parse" /\ ~ObsEq(s.obs, Run(def, s.argv)) THEN "model"
   ELSE "ok"
 Verdict(r) ==
   LET def == Defs[r.d].cmd
-      bad == SelectSeq([i \in 1..Len(r.steps) |-> StepVerdict(def, r.steps[i])], LAMBDA v : v # "ok")
+      bad == SelectSeq([i \in 1..Len(r.steps) |-> StepVerdict(def, r, i)], LAMBDA v : v # "ok")
       real == SelectSeq(bad, LAMBDA v : v # "model")
-  IN IF real # <<>> THEN real[1] ELSE IF bad # <<>> THEN "model" ELSE "ok"
+      unknown == SelectSeq(real, LAMBDA v : v # "C11-reused-differs-from-fresh#KF-C11-1")
+  IN IF unknown # <<>> THEN unknown[1] ELSE IF real # <<>> THEN real[1] ELSE IF bad # <<>> THEN "model" ELSE "ok"
 
 Init == l = 1
 Next ==
